@@ -132,6 +132,7 @@ func (u *Unit) evalCall(st *State, call *ast.CallExpr) Val {
 		}
 		sig, _ := u.typeOf(fun).Underlying().(*types.Signature)
 		u.note("abstracted", "call through function value "+exprStr(u.eng.fset, fun))
+		u.setHeap(st, "G$lastfv", sArr(SInt, SInt), tStore(u.heapTerm(st, "G$lastfv", sArr(SInt, SInt)), "0", fv.S)) // spec: lastfv() - the function value most recently called
 		return u.havocResults(st, sig, "fv")
 	}
 	sig := fn.Type().(*types.Signature)
